@@ -406,3 +406,8 @@ PROPS["C16"]["level_text"] += " E2, one arbitrary step of the CLOCK sweep: the c
 PROPS["C16"]["functions"].append("src/core/cache.rs::evict_entries")
 PROPS["C17"]["level_text"] += " E2, every path of `impl Drop for FeoxStore`: the final metadata write happens only for an initialized, persistent store – a store dropped because its open was rejected writes nothing."
 PROPS["C17"]["functions"].append(PERSIST + "::drop")
+
+# memory-heavy harness groups: fewer concurrent CBMC processes in the thorough tier (each up to ~16 GB)
+for _p in ("C06", "C05", "C09", "C02"):
+    PROPS[_p]["jobs_thorough"] = 3
+    PROPS[_p]["mem_gb"] = 40
